@@ -18,7 +18,7 @@ A_SPEC = ["peg_compile1 (sub-pattern compilation) obeys its contract h_compile1:
           "bytecode vector <= 24 words in the harness (<= 4 symbolic words emitted before the call); paths that grow beyond are cut",
           "janet_arity (capi.c) raises unless min <= argc <= max",
           "compiled with -DJANET_NO_NANBOX (documented tagged-struct configuration of the same sources)"]
-BOUND = "bytecode vector <= 24 words (<= 4 arbitrary words before the rule, each sub-compilation appends <= 3 words); argc 0..4 symbolic; loops unwound 26x WITH unwinding assertion"
+BOUND = "bytecode vector <= 24 words (0 or 3 arbitrary words before the rule, vector absent / with room / full, each sub-compilation appends <= 3 words); argc 0..4 symbolic; loops unwound 26x WITH unwinding assertion"
 
 
 def spec(name, fn, shape, clause, mutants, defines=(), functions=None, **kw):
@@ -162,7 +162,319 @@ for name, fn, op in [("sequence", "spec_sequence", "RULE_SEQUENCE"), ("choice", 
          [M("variadic-last-slot-not-patched", "    for (int32_t i = 0; i < argc; i++) {\n        uint32_t rulei = peg_compile1(b, argv[i]);", "    for (int32_t i = 0; i < argc - 1; i++) {\n        uint32_t rulei = peg_compile1(b, argv[i]);", "sub-compilation|words"),
           M("variadic-slot-off-by-one", "        b->bytecode[rule + 2 + i] = rulei;", "        b->bytecode[rule + 1 + i] = rulei;", "words|wf"),
           M("variadic-one-slot-short", "    for (int32_t i = 0; i < argc; i++)\n        janet_v_push(b->bytecode, 0);\n    for (int32_t i = 0; i < argc; i++) {", "    for (int32_t i = 0; i < argc - 1; i++)\n        janet_v_push(b->bytecode, 0);\n    for (int32_t i = 0; i < argc; i++) {", "reserved before|present|wf|exactly")],
-         defines=["OP=" + op], functions=[fn, "spec_variadic"])
+         defines=["OP=" + op], functions=[fn, "spec_variadic"], unwindset={"spec_variadic.0": 4, "spec_variadic.1": 4},
+         bound=BOUND + "; at most 3 sub-patterns")
 
+
+# ------------------------------------------------------------------ (a) compiler: emitters, readers, make_peg
+A_VEC = ["janet_v_grow (vector.c) returns a block with room for the increment holding the old words; the harness model MOVES the vector at every growth and frees the old block",
+         "compiled with -DJANET_NO_NANBOX (documented tagged-struct configuration of the same sources)"]
+
+
+def leaf(name, fn, entry, clause, mutants, defines=(), repl=(), cls="bounded", bound=None, functions=None, assumes=(), **kw):
+    u = {"id": "peg.wf." + name, "props": ["C12", "C10"], "tier": "quick", "class": cls,
+         "clause": clause, "src": ["peg.c"], "link": ["wrap.c"], "harness": ["peg_compile.c"], "entry": entry, "mode": "plain",
+         "functions": functions or [fn], "defines": ["-DVC_OWN_EXIT"] + ["-D" + d for d in defines],
+         "replace_calls": ["janet_v_grow:h_v_grow"] + list(repl), "remove_bodies": "cfun_peg_.*|peg_rule|peg_unmarshal|peg_marshal|peg_compile1", "nanbox": False, "checks": STD,
+         "unwind": 26, "unwinding_assertions": True, "timeout": 300, "assumes": list(assumes) or A_VEC, "mutants": mutants}
+    if bound:
+        u["bound"] = bound
+    u.update(kw)
+    units.append(u)
+
+
+leaf("reserve", "reserve", "h_reserve",
+     "reserve(b, size): the reservation is {builder, old count, size}; exactly size words are appended and every one is initialised to 0; earlier rules survive the growth (moving) of the vector; count stays below capacity",
+     [M("reserve-one-word-short", "    for (int32_t i = 0; i < size; i++)\n        janet_v_push(b->bytecode, 0);\n    return r;", "    for (int32_t i = 1; i < size; i++)\n        janet_v_push(b->bytecode, 0);\n    return r;", "exactly size"),
+      M("reserve-index-after-push", "    r.index = janet_v_count(b->bytecode);\n    r.builder = b;\n    r.size = size;\n    for (int32_t i = 0; i < size; i++)\n        janet_v_push(b->bytecode, 0);",
+        "    r.builder = b;\n    r.size = size;\n    for (int32_t i = 0; i < size; i++)\n        janet_v_push(b->bytecode, 0);\n    r.index = janet_v_count(b->bytecode);", "old count")],
+     defines=["LEAF_reserve", "GROW_MOVES"], bound="size 0..9 (the sizes used are 2, 3, 4, 9); vector absent or holding 3 words (full / 3 free); blocks of 24 words")
+for n in (8, 1, 2, 3):
+    fn = "emit_rule" if n == 8 else "emit_%d" % n
+    muts = [M("emit_rule-body-shifted", "    memcpy(r.builder->bytecode + r.index + 1, body, n * sizeof(uint32_t));", "    memcpy(r.builder->bytecode + r.index, body, n * sizeof(uint32_t));", "opcode|argument word"),
+            M("emit_rule-one-word-too-many", "    memcpy(r.builder->bytecode + r.index + 1, body, n * sizeof(uint32_t));", "    memcpy(r.builder->bytecode + r.index + 1, body, (n + 1) * sizeof(uint32_t));", "outside the reserved|pointer|bounds|memcpy")]
+    if n == 2:
+        muts.append(M("emit_2-args-swapped", "    uint32_t arr[2] = {arg1, arg2};", "    uint32_t arr[2] = {arg2, arg1};", "argument word"))
+    if n == 3:
+        muts.append(M("emit_3-last-arg-dropped", "    uint32_t arr[3] = {arg1, arg2, arg3};\n    emit_rule(r, op, 3, arr);", "    uint32_t arr[3] = {arg1, arg2, arg3};\n    emit_rule(r, op, 2, arr);", "bad reserve|argument word"))
+    leaf(fn, fn, "h_emit_rule",
+         "%s into a reservation (index + size <= count): opcode at index, argument word j at index + 1 + j - every reserved word filled, in order; no word outside the reserved block written; vector neither moved nor resized; \"bad reserve\" never fires for size == n + 1" % fn,
+         muts, defines=["LEAF_emit_rule", "EMIT_N=%d" % n], functions=[fn, "emit_rule"],
+         bound="reservation (2, 3, 4 or 9 words) at a symbolic index inside a vector of 12 symbolic words")
+leaf("emit_bytes", "emit_bytes", "h_emit_bytes",
+     "emit_bytes (literals): [op, len, ceil(len/4) data words] appended; data bytes = the literal in memory order, padding bytes 0; the copy targets the CURRENT vector and stays inside the words just pushed; wf_peg clause of RULE_LITERAL `r[1] <= 4*len && 2 + ((r[1]+3)>>2) <= room`",
+     [M("emit_bytes-words-rounded-down", "    int32_t words = ((len + 3) >> 2);", "    int32_t words = (len >> 2);", "no write past|ceil|wf"),
+      M("emit_bytes-copy-from-opcode", "    memcpy(b->bytecode + next_rule + 2, bytes, len);", "    memcpy(b->bytecode + next_rule + 1, bytes, len);", "data starts"),
+      M("emit_bytes-length-word-is-words", "    janet_v_push(b->bytecode, len);\n    int32_t words = ((len + 3) >> 2);", "    int32_t words = ((len + 3) >> 2);\n    janet_v_push(b->bytecode, words);", "length words|wf")],
+     defines=["LEAF_emit_bytes", "GROW_MOVES"], repl=["memcpy:h_memcpy"],
+     bound="literal length 0..9 bytes; vector absent or holding 3 words (full / with room); blocks of 24 words",
+     assumes=A_VEC + ["memcpy copies n bytes (harness model: asserts source / destination / length, then copies bytewise)"],
+     undecided_clauses=["(len + 3) >> 2 overflows int32 for literals longer than 2^31-4 bytes: outside the bound of this unit (a 2 GiB literal does not fit the int32 vector capacity either)"])
+leaf("emit_constant", "emit_constant", "h_leaf_emit_constant",
+     "emit_constant: returns the old constant count = index where the constant is stored; count + 1 (so the index is below num_constants of the finished peg); older constants survive the growth of the vector",
+     [M("emit_constant-index-after-push", "    uint32_t cindex = (uint32_t) janet_v_count(b->constants);\n    janet_v_push(b->constants, c);\n    return cindex;", "    janet_v_push(b->constants, c);\n    uint32_t cindex = (uint32_t) janet_v_count(b->constants);\n    return cindex;", "old constant count|below")],
+     defines=["LEAF_emit_constant", "GROW_MOVES"], cls="bounded", bound="constant vector absent or holding 2 constants (full / with room)")
+leaf("emit_tag", "emit_tag", "h_leaf_emit_tag",
+     "emit_tag: only keywords; a known keyword keeps its number, a new one gets nexttag and is recorded; every tag is in 1..255 (tag 256 raises) - tags are pushed on the matcher's one-byte tag stack and 0 means untagged",
+     [M("emit_tag-limit-off-by-one", "        if (tag > 255) {", "        if (tag > 256) {", "one-byte"),
+      M("emit_tag-not-recorded", "        janet_table_put(b->tags, t, val);\n        return tag;", "        return tag;", "recorded"),
+      M("emit_tag-keyword-unchecked", "    if (!janet_checktype(t, JANET_KEYWORD))\n        peg_panicf(b, \"expected keyword for capture tag, got %v\", t);", "", "keyword")],
+     defines=["LEAF_emit_tag"], repl=["janet_table_get:h_tget", "janet_table_put:h_tput"], cls="full-domain",
+     assumes=["the builder's tag table holds only what emit_tag put there (numbers 1..255): janet_table_get returns nil or such a number; nexttag >= 1 (compile_peg starts at 1)",
+              "compiled with -DJANET_NO_NANBOX"])
+for nm, nat in (("getinteger", False), ("getnat", True)):
+    leaf(nm, "peg_" + nm, "h_getint",
+         "peg_%s returns i only when the pattern value is exactly the number i (int32%s); NaN, fractions, out-of-range and negative%s values raise - so counts / indices / widths in the bytecode are the numbers written in the pattern" % (nm, ", i >= 0" if nat else "", "" if nat else " (n/a)"),
+         ([M("getnat-sign-unchecked", "    if (i < 0)\n        peg_panicf(b, \"expected non-negative integer, got %v\", x);", "", "negative")] if nat else []) +
+         [M("getinteger-unchecked", "    if (!janet_checkint(x))\n        peg_panicf(b, \"expected integer, got %v\", x);", "", "non-number|exactly")],
+         defines=["LEAF_getint"] + (["GETNAT"] if nat else []), cls="full-domain", link=["wrap.c", "util.c"], link_keep={"util.c": ["janet_checkint"]},
+         functions=["peg_getnat", "peg_getinteger"] if nat else ["peg_getinteger"], checks=STD + ["float-overflow-check", "nan-check"][:0],
+         assumes=["janet_checkint (util.c) is linked with its real body", "compiled with -DJANET_NO_NANBOX"])
+leaf("arity", "peg_arity", "h_arity_real",
+     "peg_arity / peg_fixarity return only for an argument count in range (so argv[k] is only read for k < argc)",
+     [M("arity-max-off-by-one", "    if (max >= 0 && arity > max)", "    if (max >= 0 && arity > max + 1)", "peg_arity"),
+      M("fixarity-unchecked", "    if (argc != arity) {\n        peg_panicf(b, \"expected %d argument%s, got %d\",", "    if (0) {\n        peg_panicf(b, \"expected %d argument%s, got %d\",", "peg_fixarity")],
+     defines=["LEAF_arity"], cls="full-domain", functions=["peg_arity", "peg_fixarity"], assumes=["compiled with -DJANET_NO_NANBOX"])
+leaf("getrange", "peg_getrange", "h_getrange",
+     "peg_getrange / peg_getset: only strings; a range string has exactly 2 bytes with lo <= hi, anything else raises (both bytes are read inside the string)",
+     [M("getrange-length-unchecked", "    if (janet_string_length(str) != 2)\n        peg_panicf(b, \"expected string to have length 2, got %v\", x);", "", "two bytes"),
+      M("getrange-empty-accepted", "    if (str[1] < str[0])\n        peg_panicf(b, \"range %v is empty\", x);", "", "empty range")],
+     defines=["LEAF_getrange"], cls="bounded", bound="string length 0..3", functions=["peg_getrange", "peg_getset"], assumes=["compiled with -DJANET_NO_NANBOX"])
+leaf("make_peg", "make_peg", "h_make_peg",
+     "make_peg: header, bytecode words and constants share one abstract block: both arrays inside the block, aligned, disjoint; bytecode_len / num_constants = vector counts for EVERY pair of int32 counts (no wrap-around); exactly count elements copied; has_backref handed on",
+     [M("make_peg-constants-not-aligned", "    size_t constants_start = size_padded(bytecode_start + bytecode_size, sizeof(Janet));\n    size_t constants_size = janet_v_count(b->constants) * sizeof(Janet);", "    size_t constants_start = bytecode_start + bytecode_size;\n    size_t constants_size = janet_v_count(b->constants) * sizeof(Janet);", "aligned"),
+      M("make_peg-len-from-constants", "    peg->bytecode_len = janet_v_count(b->bytecode);", "    peg->bytecode_len = janet_v_count(b->constants);", "vector counts"),
+      M("make_peg-block-too-small", "    size_t total_size = constants_start + constants_size;\n    char *mem = janet_abstract(&janet_peg_type, total_size);", "    size_t total_size = constants_start;\n    char *mem = janet_abstract(&janet_peg_type, total_size);", "inside the block|large enough")],
+     defines=["LEAF_make_peg"], repl=["janet_abstract:h_abstract", "safe_memcpy:h_safe_memcpy"], cls="full-domain", functions=["make_peg", "size_padded"],
+     assumes=["janet_abstract returns a block of the requested size; safe_memcpy copies n bytes (stub records and checks the ranges)", "compiled with -DJANET_NO_NANBOX"])
+
+# ---- (range ...) / (set ...)
+for name, fn, shape, clause, muts, us in [
+    ("set", "spec_set", "set", "rule [RULE_SET, 8 bitmap words] for (set str): bit c of the bitmap is set iff byte c occurs in the string (word c>>5, bit c&31 - the matcher's test); 9 words reserved and all filled; wf_peg clause `room >= 9`; non-string / wrong arity raises",
+     [M("bitmap-bit-index-wrong", "    bitmap[c >> 5] |= ((uint32_t)1) << (c & 0x1F);", "    bitmap[c >> 5] |= ((uint32_t)1) << (c & 0x0F);", "bitmap"),
+      M("set-last-byte-skipped", "    for (int32_t i = 0; i < janet_string_length(str); i++)\n        bitmap_set(bitmap, str[i]);", "    for (int32_t i = 0; i < janet_string_length(str) - 1; i++)\n        bitmap_set(bitmap, str[i]);", "bitmap")], {}),
+    ("range", "spec_range", "range", "(range \"az\"): [RULE_RANGE, lo | hi << 16]; (range r1 r2 ...): [RULE_SET, bitmap] with bit c set iff c lies in one of the ranges; every range string has 2 bytes lo <= hi, else raise; wf_peg clauses `room >= 2` / `room >= 9`",
+     [M("range-hi-shift-wrong", "        uint32_t arg = str[0] | (str[1] << 16);", "        uint32_t arg = str[0] | (str[1] << 8);", "range word"),
+      M("range-set-excludes-hi", "            for (uint32_t c = str[0]; c <= str[1]; c++)", "            for (uint32_t c = str[0]; c < str[1]; c++)", "bitmap")], {"spec_range.0": 10, "spec_range.1": 4})]:
+    spec(name, fn, shape, clause, muts, functions=[fn, "bitmap_set", "peg_getrange", "peg_getset", "reserve", "emit_rule"], entry="h_charset",
+         unwindset=us, bound="set string <= 3 bytes / at most 2 ranges (any lo, span hi - lo < 8); " + BOUND)
+
+# ------------------------------------------------------------------ (a) compiler: peg_compile1, one unit per kind of pattern
+C1REPL = ["peg_compile1:h_compile1_main", "janet_table_get:h_table_get", "janet_table_rawget:h_table_rawget", "janet_table_get_ex:h_table_get_ex",
+          "janet_table_put:h_table_put", "janet_table_clone:h_table_clone", "janet_table:h_table", "janet_csymbol:h_csymbol",
+          "janet_strbinsearch:h_strbinsearch", "emit_bytes:h_emit_bytes_stub", "spec_repeat:h_spec_repeat", "peg_getinteger:h_getinteger",
+          "janet_v_grow:h_v_grow"]
+A_C1 = ["grammar scopes are abstract: janet_table_get / rawget / get_ex / put / clone / janet_table are logging stubs; lookups of non-keyword keys obey the rule cache invariant INV (nil or the index of an instruction start below the count)",
+        "the recursive call for :main obeys the contract h_compile1 (returns an instruction start below the new count)",
+        "spec_* functions emit their rule at the count at entry (proved per function in peg.wf.spec.*); here their bodies are removed (calls through the table of specials have no effect)",
+        "emit_bytes appends [op, len, data words] (peg.wf.emit_bytes); peg_getinteger returns an int32 or raises (peg.wf.getinteger); janet_checkint (util.c) linked with its real body",
+        "janet_strbinsearch returns NULL or an element of the table it is given (sortedness of peg_specials: peg.wf.specials.sorted)",
+        "compiled with -DJANET_NO_NANBOX"]
+INTMIN_SKIP = "peg_compile1\\.overflow"
+INTMIN_NOTE = "signed overflow of -n for the pattern -2147483648 (peg.c `emit_1(r, RULE_NOTNCHAR, -n)`): excluded here, shown by the disabled unit peg.wf.compile1.intmin (reported as a finding; wraps to 2^31 on this platform, which is the intended operand)"
+
+
+def c1(name, case, clause, mutants, skip_intmin=False, **kw):
+    u = {"id": "peg.wf.compile1." + name, "props": ["C12", "C10"], "tier": "quick", "class": "bounded",
+         "bound": "bytecode vector <= 24 words (absent, or 3 arbitrary words); scope chain of 2 tables; strings <= 5 bytes, tuples <= 3 elements, structs of capacity 2; keyword chains <= 2 steps",
+         "clause": clause, "src": ["peg.c"], "link": ["wrap.c", "util.c"], "link_keep": {"util.c": ["janet_checkint"]},
+         "harness": ["peg_compile1.c"], "entry": "h_c1", "mode": "plain", "functions": ["peg_compile1"],
+         "defines": ["-DVC_OWN_EXIT", "-DC1_" + case], "replace_calls": C1REPL, "replace_calls2": ["peg_compile1__entry:peg_compile1"],
+         "remove_bodies": "cfun_peg_.*|peg_rule|peg_unmarshal|peg_marshal|spec_.*", "genbody": "(janet_|nd_|spec_).*", "nanbox": False, "checks": STD,
+         "unwind": 26, "unwinding_assertions": True, "timeout": 300, "assumes": A_C1, "mutants": mutants}
+    if skip_intmin:
+        u["skip"] = [INTMIN_SKIP]
+        u["undecided_clauses"] = [INTMIN_NOTE]
+    u.update(kw)
+    units.append(u)
+
+
+c1("prim", "prim",
+   "boolean / number / string / buffer patterns: the rule ([NCHAR n] / [NOTNCHAR -n] / literal) is emitted AT the entry count and that index is returned; cached in the ROOT scope under the same index; depth, scope and form restored; wf_peg clauses `room >= 2` / RULE_LITERAL",
+   [M("prim-notnchar-not-negated", "                emit_1(r, RULE_NOTNCHAR, -n);", "                emit_1(r, RULE_NOTNCHAR, n);", "NOTNCHAR"),
+    M("prim-cached-in-local-scope", "            while (which_grammar->proto)\n                which_grammar = which_grammar->proto;", "", "ROOT"),
+    M("prim-depth-not-restored", "    /* Increase depth again */\n    b->depth++;", "    /* Increase depth again */", "depth"),
+    M("prim-buffer-capacity-as-length", "            emit_bytes(b, RULE_LITERAL, buf->count, buf->data);", "            emit_bytes(b, RULE_LITERAL, buf->capacity, buf->data);", "literal")],
+   skip_intmin=True)
+c1("intmin", "prim",
+   "the pattern -2147483648 (`-n` with n = INT32_MIN) is compiled without signed overflow [NOT established: undefined behaviour in peg_compile1, reported; unit disabled]",
+   [M("prim-notnchar-not-negated", "                emit_1(r, RULE_NOTNCHAR, -n);", "                emit_1(r, RULE_NOTNCHAR, n);", "NOTNCHAR")],
+   disabled_reason="fails on the pinned tree: peg_compile1.overflow.* 'arithmetic overflow on signed unary minus in -n' for (peg/compile -2147483648); benign on x86-64 (wraps to 0x80000000 = the intended operand) but undefined behaviour in C; reported")
+c1("cache", "cache",
+   "a pattern found in the rule cache returns the cached index (an instruction start below the count, by INV) and emits / caches nothing; tuples are looked up in the current scope only (rawget), all other patterns through the scope chain; depth, scope and form restored",
+   [M("cache-form-not-restored", "    if (!janet_checktype(check, JANET_NIL)) {\n        b->form = old_form;\n        b->grammar = old_grammar;", "    if (!janet_checktype(check, JANET_NIL)) {\n        b->grammar = old_grammar;", "form"),
+    M("cache-tuples-through-chain", "    Janet check = janet_checktype(peg, JANET_TUPLE)\n                  ? janet_table_rawget(grammar, peg)", "    Janet check = janet_checktype(peg, JANET_TUPLE)\n                  ? janet_table_get(grammar, peg)", "tuples are cached per scope")])
+c1("keyword", "keyword",
+   "`:name`: resolved through the scope chain (then the default grammar; unknown names and over-long chains raise); the resolved pattern - never the keyword - is compiled at the entry count and its index returned, or, if it is already compiled (recursive / shared rule), its cached index; the cache is consulted from the scope the name was found in; the scope switch is undone on return",
+   [M("keyword-scope-leaks-on-cache-hit", "    if (!janet_checktype(check, JANET_NIL)) {\n        b->form = old_form;\n        b->grammar = old_grammar;", "    if (!janet_checktype(check, JANET_NIL)) {\n        b->form = old_form;", "scope"),
+    M("keyword-scope-leaks", "    b->depth++;\n    b->form = old_form;\n    b->grammar = old_grammar;\n    return rule;", "    b->depth++;\n    b->form = old_form;\n    return rule;", "scope"),
+    M("keyword-resolved-from-inner-scope", "        Janet nextPeg = janet_table_get_ex(grammar, peg, &grammar);", "        Janet nextPeg = janet_table_get_ex(old_grammar, peg, &grammar);", "scoping")],
+   skip_intmin=True, unwindset={"peg_compile1.0": 3}, unwinding_assertions=False)
+c1("tuple", "tuple",
+   "(special args...) / (n patt): the empty tuple, a head that is neither integer nor symbol, an unknown special and a negative count raise; the tuple is cached in the CURRENT scope under the entry count before its body is compiled; that index - where the special emits its rule - is returned; (n patt) is spec_repeat on the whole tuple",
+   [M("tuple-cached-in-root", "        if (!janet_checktype(peg, JANET_TUPLE)) {\n            while (which_grammar->proto)", "        if (1) {\n            while (which_grammar->proto)", "CURRENT scope"),
+    M("tuple-negative-count-accepted", "                if (n < 0) {\n                    peg_panicf(b, \"expected non-negative integer, got %d\", n);\n                }", "", "negative count"),
+    M("tuple-shorthand-drops-head", "                spec_repeat(b, len, tup);", "                spec_repeat(b, len - 1, tup + 1);", "whole tuple")])
+c1("struct", "struct",
+   "{:main patt ...}: a new scope (child of the current one) receives ONLY the keyword keys of the struct (INV: no user data under non-keyword keys), :main is looked up in the new scope itself (missing :main raises), compiled there, and its rule index is returned; the new scope does not leak",
+   [M("struct-all-keys-copied", "                if (janet_checktype(st[i].key, JANET_KEYWORD)) {\n                    janet_table_put(new_grammar, st[i].key, st[i].value);\n                }", "                {\n                    janet_table_put(new_grammar, st[i].key, st[i].value);\n                }", "INV"),
+    M("struct-scope-not-chained", "            new_grammar->proto = grammar;\n            b->grammar = grammar = new_grammar;\n            /* Run the main rule */\n            Janet main_rule = janet_table_rawget(grammar, janet_ckeywordv(\"main\"));\n            if (janet_checktype(main_rule, JANET_NIL))\n                peg_panic(b, \"grammar requires :main rule\");\n            rule = peg_compile1(b, main_rule);\n            break;\n        }\n        case JANET_TUPLE",
+      "            b->grammar = grammar = new_grammar;\n            /* Run the main rule */\n            Janet main_rule = janet_table_rawget(grammar, janet_ckeywordv(\"main\"));\n            if (janet_checktype(main_rule, JANET_NIL))\n                peg_panic(b, \"grammar requires :main rule\");\n            rule = peg_compile1(b, main_rule);\n            break;\n        }\n        case JANET_TUPLE", "parent")],
+   unwindset={"peg_compile1.1": 3})
+c1("table", "table",
+   "@{:main patt ...}: as for structs - the new scope holds only keyword keys of the user's table, and a cache entry for the table object is the index returned for it [NOT established by the pinned tree: two INV violations, both reproduced on the real binary (SIGSEGV / out-of-bounds read in peg/match); unit disabled, reported]",
+   [M("table-scope-not-chained", "            new_grammar->proto = grammar;\n            b->grammar = grammar = new_grammar;\n            /* Run the main rule */\n            Janet main_rule = janet_table_rawget(grammar, janet_ckeywordv(\"main\"));\n            if (janet_checktype(main_rule, JANET_NIL))\n                peg_panic(b, \"grammar requires :main rule\");\n            rule = peg_compile1(b, main_rule);\n            break;\n        }\n        case JANET_STRUCT",
+      "            b->grammar = grammar = new_grammar;\n            /* Run the main rule */\n            Janet main_rule = janet_table_rawget(grammar, janet_ckeywordv(\"main\"));\n            if (janet_checktype(main_rule, JANET_NIL))\n                peg_panic(b, \"grammar requires :main rule\");\n            rule = peg_compile1(b, main_rule);\n            break;\n        }\n        case JANET_STRUCT", "parent")],
+   disabled_reason="fails on the pinned tree: (1) h_compile1_main.assertion 'a new scope holds only the KEYWORD keys of the user's grammar' - janet_table_clone copies every key, a key such as 3 is then taken for a cached rule index: (peg/match @{:main '(* 3) 3 1000000} \"abc\") -> SIGSEGV; (2) c1_case.assertion 'a cache entry for the grammar itself is the index that is returned for it' - the table is cached under the entry count although it compiles to the rule of :main: (def t @{:main \"x\"}) (peg/match ~(* \"x\" ,t ,t) \"xxx\") reads past the bytecode (valgrind: invalid read, 'unexpected opcode'). Both violate wf_peg RULEREF of the sequence rule; reported")
+units.append({"id": "peg.wf.specials.sorted", "props": ["C12"], "tier": "quick", "class": "full-domain",
+              "clause": "peg_specials is sorted strictly ascending by name - the precondition of the binary search that dispatches special forms (every special is reachable, none shadowed)",
+              "src": ["peg.c"], "link": ["wrap.c"], "harness": ["peg_compile1.c"], "entry": "h_sorted", "mode": "plain", "functions": ["peg_compile1"],
+              "defines": ["-DVC_OWN_EXIT", "-DC1_sorted"], "replace_calls": ["janet_v_grow:h_v_grow"], "remove_bodies": "cfun_peg_.*|peg_rule|peg_unmarshal|peg_marshal", "nanbox": False,
+              "checks": STD, "unwind": 26, "unwinding_assertions": True, "timeout": 120, "assumes": ["compiled with -DJANET_NO_NANBOX"],
+              "mutants": [M("specials-out-of-order", "    {\"int\", spec_int_le},\n    {\"int-be\", spec_int_be},", "    {\"int-be\", spec_int_be},\n    {\"int\", spec_int_le},", "sorted")]})
+units.append({"id": "peg.wf.compile_peg", "props": ["C12"], "tier": "quick", "class": "full-domain",
+              "clause": "compile_peg: compilation starts with absent bytecode / constant vectors (rule 0 = top rule), tag numbering at 1 (0 = untagged; emit_tag's precondition), full recursion budget; the peg is built after the compilation",
+              "src": ["peg.c"], "link": ["wrap.c"], "harness": ["peg_compile1.c"], "entry": "h_compile_peg", "mode": "plain", "functions": ["compile_peg"],
+              "defines": ["-DVC_OWN_EXIT", "-DC1_compile_peg"], "replace_calls": ["peg_compile1:h_compile1_top", "make_peg:h_make_peg_stub", "janet_table:h_table", "janet_v_grow:h_v_grow"],
+              "remove_bodies": "cfun_peg_.*|peg_rule|peg_unmarshal|peg_marshal", "nanbox": False,
+              "checks": STD, "unwind": 26, "unwinding_assertions": True, "timeout": 120,
+              "assumes": ["peg_compile1 / make_peg replaced by stubs that assert the builder state they are given; janet_dyn returns any value", "compiled with -DJANET_NO_NANBOX"],
+              "mutants": [M("compile_peg-tags-from-zero", "    builder.nexttag = 1;", "    builder.nexttag = 0;", "tag numbering"),
+                          M("compile_peg-bytecode-uninitialised", "    builder.constants = NULL;\n    builder.bytecode = NULL;", "    builder.constants = NULL;", "empty bytecode")]})
+
+# ------------------------------------------------------------------ (b) loader: peg_unmarshal, framing + one unit per opcode case
+LREPL = ["janet_unmarshal_size:h_um_size", "janet_unmarshal_int:h_um_int", "janet_unmarshal_janet:h_um_janet",
+         "janet_unmarshal_ensure:h_um_ensure", "janet_unmarshal_abstract:h_um_abstract"]
+A_LOAD = ["janet_unmarshal_size / _int / _janet deliver the image (stubs: the first int is num_constants, then the words of the harness image, then arbitrary values); janet_unmarshal_abstract returns a block of the requested size; janet_unmarshal_ensure returns only if enough input remains",
+          "image shape: [RULE_NCHAR n] pairs, ONE instruction of the opcode under test at word 0 or 2 with symbolic operands, [RULE_NCHAR n] padding; every (position, bytecode length, length operand) combination is a constant case of the harness - the real function is one big loop, the case split keeps each path to one switch case per iteration"]
+A_SLACK = "the block has 3 readable words of slack behind its end: the verifier reads operand words before checking that they lie inside the bytecode (out-of-bounds read shown by peg.load.exact.*, disabled, reported)"
+OPS_LOAD = [
+ # name, opcode, clause text, find, replace  (mutant: the check of this opcode dropped / weakened)
+ ("nchar", "RULE_NCHAR", "room >= 2", None),
+ ("notnchar", "RULE_NOTNCHAR", "room >= 2", None),
+ ("range", "RULE_RANGE", "room >= 2", None),
+ ("position", "RULE_POSITION", "room >= 2", None),
+ ("line", "RULE_LINE", "room >= 2", None),
+ ("column", "RULE_COLUMN", "room >= 2", None),
+ ("backmatch", "RULE_BACKMATCH", "room >= 2; has_backref set",
+  M("backmatch-no-backref", "                i += 2;\n                has_backref = 1;\n                break;", "                i += 2;\n                break;", "has_backref")),
+ ("set", "RULE_SET", "room >= 9",
+  M("set-size-wrong", "                /* [8 words] */\n                i += 9;", "                /* [8 words] */\n                i += 8;", "wf_peg|does not fit|REACH")),
+ ("look", "RULE_LOOK", "room >= 3 && RULEREF(r[2])",
+  M("look-target-unchecked", "                if (rule[2] >= blen) goto bad;\n                op_flags[rule[2]] |= 0x1;\n                i += 3;", "                i += 3;", "wf_peg")),
+ ("if", "RULE_IF", "room >= 3 && RULEREF(r[1]) && RULEREF(r[2])",
+  M("branch-second-target-unmarked", "                op_flags[rule[1]] |= 0x01;\n                op_flags[rule[2]] |= 0x01;\n                i += 3;\n                break;\n            case RULE_BETWEEN:", "                op_flags[rule[1]] |= 0x01;\n                i += 3;\n                break;\n            case RULE_BETWEEN:", "wf_peg")),
+ ("ifnot", "RULE_IFNOT", "room >= 3 && RULEREF(r[1]) && RULEREF(r[2])",
+  M("branch-first-target-range-unchecked", "                /* [rule_a, rule_b (b if not a)] */\n                if (rule[1] >= blen) goto bad;", "                /* [rule_a, rule_b (b if not a)] */", "wf_peg|pointer|bounds")),
+ ("lenprefix", "RULE_LENPREFIX", "room >= 3 && RULEREF(r[1]) && RULEREF(r[2])",
+  M("branch-first-target-unmarked", "                op_flags[rule[1]] |= 0x01;\n                op_flags[rule[2]] |= 0x01;\n                i += 3;\n                break;\n            case RULE_BETWEEN:", "                op_flags[rule[2]] |= 0x01;\n                i += 3;\n                break;\n            case RULE_BETWEEN:", "wf_peg")),
+ ("between", "RULE_BETWEEN", "room >= 4 && RULEREF(r[3])",
+  M("between-checks-wrong-word", "                if (rule[3] >= blen) goto bad;\n                op_flags[rule[3]] |= 0x01;", "                if (rule[2] >= blen) goto bad;\n                op_flags[rule[2]] |= 0x01;", "wf_peg")),
+ ("argument", "RULE_ARGUMENT", "room >= 3 && (int32_t) r[1] >= 0",
+  M("argument-sign-unchecked", "                if (((int32_t *)rule)[1] < 0) goto bad;\n", "", "wf_peg")),
+ ("gettag", "RULE_GETTAG", "room >= 3; has_backref set",
+  M("gettag-no-backref", "                i += 3;\n                has_backref = 1;\n                break;", "                i += 3;\n                break;", "has_backref")),
+ ("constant", "RULE_CONSTANT", "room >= 3 && r[1] < clen",
+  M("constant-index-off-by-one", "                if (rule[1] >= clen) goto bad;", "                if (rule[1] > clen) goto bad;", "wf_peg")),
+ ("capture_num", "RULE_CAPTURE_NUM", "room >= 4 && RULEREF(r[1])",
+  M("number-target-unmarked", "                if (rule[1] >= blen) goto bad;\n                op_flags[rule[1]] |= 0x01;\n                i += 4;\n                break;\n            case RULE_ACCUMULATE:", "                if (rule[1] >= blen) goto bad;\n                i += 4;\n                break;\n            case RULE_ACCUMULATE:", "wf_peg")),
+ ("accumulate", "RULE_ACCUMULATE", "room >= 3 && RULEREF(r[1])",
+  M("cap1-target-range-off-by-one", "                /* [rule, tag] */\n                if (rule[1] >= blen) goto bad;", "                /* [rule, tag] */\n                if (rule[1] > blen) goto bad;", "wf_peg|pointer|bounds")),
+ ("group", "RULE_GROUP", "room >= 3 && RULEREF(r[1])",
+  M("cap1-target-unmarked", "                /* [rule, tag] */\n                if (rule[1] >= blen) goto bad;\n                op_flags[rule[1]] |= 0x01;", "                /* [rule, tag] */\n                if (rule[1] >= blen) goto bad;", "wf_peg")),
+ ("capture", "RULE_CAPTURE", "room >= 3 && RULEREF(r[1])",
+  M("cap1-size-wrong", "                op_flags[rule[1]] |= 0x01;\n                i += 3;\n                break;\n            case RULE_REPLACE:", "                op_flags[rule[1]] |= 0x01;\n                i += 2;\n                break;\n            case RULE_REPLACE:", "wf_peg|does not fit|REACH")),
+ ("unref", "RULE_UNREF", "room >= 3 && RULEREF(r[1])",
+  M("cap1-target-unmarked", "                /* [rule, tag] */\n                if (rule[1] >= blen) goto bad;\n                op_flags[rule[1]] |= 0x01;", "                /* [rule, tag] */\n                if (rule[1] >= blen) goto bad;", "wf_peg")),
+ ("replace", "RULE_REPLACE", "room >= 4 && RULEREF(r[1]) && r[2] < clen",
+  M("replace-constant-unchecked", "                if (rule[2] >= clen) goto bad;\n", "", "wf_peg")),
+ ("matchtime", "RULE_MATCHTIME", "room >= 4 && RULEREF(r[1]) && r[2] < clen",
+  M("replace-target-unmarked", "                if (rule[2] >= clen) goto bad;\n                op_flags[rule[1]] |= 0x01;", "                if (rule[2] >= clen) goto bad;", "wf_peg")),
+ ("sub", "RULE_SUB", "room >= 3 && RULEREF(r[1]) && RULEREF(r[2])",
+  M("sub-second-target-unchecked", "                /* [rule, rule] */\n                if (rule[1] >= blen) goto bad;\n                if (rule[2] >= blen) goto bad;", "                /* [rule, rule] */\n                if (rule[1] >= blen) goto bad;", "wf_peg|pointer|bounds")),
+ ("til", "RULE_TIL", "room >= 3 && RULEREF(r[1]) && RULEREF(r[2])",
+  M("sub-second-target-unmarked", "                op_flags[rule[1]] |= 0x01;\n                op_flags[rule[2]] |= 0x01;\n                i += 3;\n                break;\n            case RULE_ERROR:", "                op_flags[rule[1]] |= 0x01;\n                i += 3;\n                break;\n            case RULE_ERROR:", "wf_peg")),
+ ("split", "RULE_SPLIT", "room >= 3 && RULEREF(r[1]) && RULEREF(r[2])",
+  M("sub-first-target-unmarked", "                op_flags[rule[1]] |= 0x01;\n                op_flags[rule[2]] |= 0x01;\n                i += 3;\n                break;\n            case RULE_ERROR:", "                op_flags[rule[2]] |= 0x01;\n                i += 3;\n                break;\n            case RULE_ERROR:", "wf_peg")),
+] + [(n, op, "room >= 2 && RULEREF(r[1])",
+      M("onerule-target-unmarked", "                /* [rule] */\n                if (rule[1] >= blen) goto bad;\n                op_flags[rule[1]] |= 0x01;", "                /* [rule] */\n                if (rule[1] >= blen) goto bad;", "wf_peg"))
+     for n, op in [("error", "RULE_ERROR"), ("drop", "RULE_DROP"), ("only_tags", "RULE_ONLY_TAGS"), ("not", "RULE_NOT"), ("to", "RULE_TO"), ("thru", "RULE_THRU")]] + [
+ ("readint", "RULE_READINT", "room >= 3 && (r[1] & ~0x3F) == 0 && (r[1] & 0xF) <= 8",
+  M("readint-width-unchecked", "                if ((rule[1] & ~0x30u) > JANET_MAX_READINT_WIDTH) goto bad;\n", "", "wf_peg")),
+ ("nth", "RULE_NTH", "room >= 4 && RULEREF(r[2])",
+  M("nth-checks-wrong-word", "                if (rule[2] >= blen) goto bad;\n                op_flags[rule[2]] |= 0x01;", "                if (rule[1] >= blen) goto bad;\n                op_flags[rule[1]] |= 0x01;", "wf_peg")),
+]
+GENERIC_MUT = [M("final-scan-dropped", "    for (i = 0; i < blen; i++)\n        if (op_flags[i] == 0x01) goto bad;", "", "wf_peg"),
+               M("truncated-program-accepted", "    if (i != blen) goto bad;", "", "does not fit|wf_peg")]
+
+
+def load(name, op, clause, mutants, lens=None, exact=False, **kw):
+    defs = ["-DLOAD_OP=" + op, "-DBL=16"]
+    if lens:
+        defs.append("-DLOAD_LENS=" + lens)
+    defs.append("-DLOAD_TRUNC" if exact else "-DLOAD_SLACK=3")
+    u = {"id": ("peg.load.exact." if exact else "peg.load.op.") + name, "props": ["C10", "C09", "C12"], "tier": "quick", "class": "bounded",
+         "bound": "one instruction of the opcode at word 0 or 2 of a program of <= 16 words (every bytecode length from 'ends inside the instruction' to 'one more instruction behind it'), operands symbolic, 0..2 constants; loops unwound 20x without unwinding assertion",
+         "clause": clause, "src": ["peg.c"], "harness": ["peg_load.c"], "entry": "h_load_op", "mode": "plain", "functions": ["peg_unmarshal"],
+         "defines": defs, "replace_calls": LREPL, "remove_bodies": "cfun_peg_.*|peg_rule|peg_compile1|spec_.*|peg_marshal", "checks": STD,
+         "unwind": 20, "unwinding_assertions": False, "timeout": 300, "assumes": A_LOAD + ([] if exact else [A_SLACK]), "mutants": mutants}
+    u.update(kw)
+    units.append(u)
+
+
+EXACT_REASON = ("fails on the pinned tree: peg_unmarshal.pointer_dereference.* 'pointer outside object bounds in rule[..]' - the verifier loop reads the operand words of an instruction "
+                "BEFORE it knows that they lie inside the bytecode (the test `i != blen` comes after the loop): heap out-of-bounds read of up to 3 words behind the block, unbounded for RULE_CHOICE / RULE_SEQUENCE "
+                "(`for j < len: rule[2 + j]`); reproduced with valgrind on (unmarshal \"\\xd9\\xcf\\x08core/peg\\x01\\x00\\x05\") and (unmarshal \"\\xd9\\xcf\\x08core/peg\\x03\\x00\\x07\\xcd\\x7f\\xff\\xff\\xff\\x00\"); reported")
+for name, op, wf, mut in OPS_LOAD:
+    muts = ([mut] if mut else []) + GENERIC_MUT[(0 if "RULEREF" in wf else 1):]
+    load(name, op, "loader case %s: accepted => wf_peg clause `%s` holds for the instruction (what peg.rule.%s assumes); an instruction that does not fit into the bytecode is rejected; header fields, array placement, has_backref" % (op, wf, name), muts)
+    if op not in ("RULE_NCHAR", "RULE_NOTNCHAR", "RULE_RANGE", "RULE_POSITION", "RULE_LINE", "RULE_COLUMN", "RULE_BACKMATCH", "RULE_SET"):
+        load(name, op, "loader case %s: while checking, only words INSIDE the bytecode are read (exactly-sized bytecode area) [NOT established by the pinned tree; unit disabled, reported]" % op,
+             muts, exact=True, disabled_reason=EXACT_REASON)
+VARM = [M("variadic-target-unmarked", "                    if (rule[2 + j] >= blen) goto bad;\n                    op_flags[rule[2 + j]] |= 0x1;", "                    if (rule[2 + j] >= blen) goto bad;", "wf_peg"),
+        M("variadic-size-off-by-one", "                i += 2 + len;\n            }", "                i += 1 + len;\n            }", "wf_peg|does not fit|REACH")]
+for name, op in [("choice", "RULE_CHOICE"), ("sequence", "RULE_SEQUENCE")]:
+    load(name, op, "loader case %s: accepted => wf_peg clause `room >= 2 && r[1] <= room - 2 && every rule slot is an instruction start`; length operands 0..3, 12 (longer than the program) and 2^32-1" % op,
+         VARM + GENERIC_MUT, lens="0,1,2,3,12,0xFFFFFFFFu", only="C10 peg loader|REACH",
+         undecided_clauses=["memory-safety obligations of the slot loop are NOT counted here (`only`): `for j < len: rule[2 + j]` reads behind the block for a length operand larger than the program (peg.load.exact.%s, disabled, reported); the 2^32-1 case is cut by the unwinding bound" % name])
+    load(name, op, "loader case %s: the slot loop reads only words inside the bytecode [NOT established by the pinned tree; unit disabled, reported]" % op,
+         VARM, lens="0,1,2,3,12,0xFFFFFFFFu", exact=True, disabled_reason=EXACT_REASON)
+LITM = [M("literal-size-rounded-down", "                i += 2 + ((rule[1] + 3) >> 2);", "                i += 2 + (rule[1] >> 2);", "wf_peg|does not fit")]
+load("literal", "RULE_LITERAL", "loader case RULE_LITERAL: accepted => `room >= 2 && r[1] <= 4*len && 2 + ((r[1]+3)>>2) <= room` (the data words of the literal lie inside the bytecode: the matcher's memcmp reads them); length operands 0, 1, 4, 5, 8, 40",
+     LITM + GENERIC_MUT[1:], lens="0,1,4,5,8,40")
+load("literal.wrap", "RULE_LITERAL", "loader case RULE_LITERAL with a length operand of 2^32-3 .. 2^32-1: rejected (the size computation (len + 3) >> 2 must not wrap) [NOT established by the pinned tree: accepted as a 2-word instruction; unit disabled, reported]",
+     LITM, lens="0xFFFFFFFDu,0xFFFFFFFFu",
+     disabled_reason="fails on the pinned tree: load_case.assertion 'accepted => the wf_peg clause of this opcode holds': (rule[1] + 3) >> 2 wraps to 0 for rule[1] >= 2^32-3, the literal is accepted with NO data words although its length word says 4 GiB: (unmarshal \"\\xd9\\xcf\\x08core/peg\\x02\\x00\\x00\\xcd\\xff\\xff\\xff\\xff\") returns a peg; on LP64 the matcher's `text + len > text_end` test rejects every text (no crash), on a 32-bit build the pointer wraps and memcmp runs over 4 GiB; wf_peg clause of RULE_LITERAL violated; reported")
+load("literal", "RULE_LITERAL", "loader case RULE_LITERAL: only words inside the bytecode are read [NOT established by the pinned tree: rule[1] of a RULE_LITERAL in the last word; unit disabled, reported]",
+     LITM, lens="0,1,4,5,8,40", exact=True, disabled_reason=EXACT_REASON)
+load("unknown", "RULE_ONLY_TAGS + 1", "loader: an opcode beyond the last known one is rejected wherever it stands (the matcher's switch has no default case that returns)",
+     [M("unknown-opcode-skipped", "            default:\n                goto bad;\n        }\n    }\n\n    /* last instruction cannot overflow */", "            default:\n                i += 2;\n                break;\n        }\n    }\n\n    /* last instruction cannot overflow */", "wf_peg")],
+     reach=False, min_obligations=3)
+
+FR = {"id": "peg.load.frame", "props": ["C10", "C09", "C12"], "tier": "quick", "class": "bounded",
+      "bound": "programs of 0..5 words ([RULE_NCHAR n] pairs), 0..2 constants",
+      "clause": "loader framing: num_constants, then exactly bytecode_len words, then exactly num_constants values are read; input length checked before allocating; words / constants stored in image order in the make_peg layout inside the block; one scratch flag per word, freed on the accepting AND on every rejecting exit; a program ending inside its last instruction is rejected",
+      "src": ["peg.c"], "harness": ["peg_load.c"], "entry": "h_load_frame", "mode": "plain", "functions": ["peg_unmarshal", "size_padded"],
+      "defines": ["-DLOAD_FRAME", "-DVC_OWN_PANIC", "-DBL=8"], "replace_calls": LREPL + ["calloc:h_calloc", "free:h_free"],
+      "remove_bodies": "cfun_peg_.*|peg_rule|peg_compile1|spec_.*|peg_marshal", "checks": STD, "unwind": 12, "unwinding_assertions": True, "timeout": 300,
+      "assumes": A_LOAD[:1] + ["calloc returns zeroed memory (harness model)"],
+      "mutants": [M("flags-leak-on-reject", "bad:\n    janet_free(op_flags);\n    janet_panic(\"invalid peg bytecode\");", "bad:\n    janet_panic(\"invalid peg bytecode\");", "freed before"),
+                  M("constants-read-first", "    for (size_t i = 0; i < peg->bytecode_len; i++)\n        bytecode[i] = (uint32_t) janet_unmarshal_int(ctx);\n    for (uint32_t j = 0; j < peg->num_constants; j++)\n        constants[j] = janet_unmarshal_janet(ctx);",
+                    "    for (uint32_t j = 0; j < peg->num_constants; j++)\n        constants[j] = janet_unmarshal_janet(ctx);\n    for (size_t i = 0; i < peg->bytecode_len; i++)\n        bytecode[i] = (uint32_t) janet_unmarshal_int(ctx);", "order"),
+                  M("constants-not-aligned", "    size_t constants_start = size_padded(bytecode_start + bytecode_size, sizeof(Janet));\n    size_t total_size = constants_start + sizeof(Janet) * (size_t) num_constants;", "    size_t constants_start = bytecode_start + bytecode_size;\n    size_t total_size = constants_start + sizeof(Janet) * (size_t) num_constants;", "layout")]}
+units.append(FR)
+units.append({"id": "peg.load.sizes", "props": ["C10", "C09"], "tier": "quick", "class": "full-domain",
+              "clause": "loader framing, untrusted lengths: for EVERY 64-bit bytecode length and 32-bit constant count the image is rejected (length > INT32_MAX, which the 32-bit verifier loop would truncate) or the allocation size is computed without wrap-around (128-bit reference) after the input length was checked (regression guard for /repo 965213d)",
+              "src": ["peg.c"], "harness": ["peg_load.c"], "entry": "h_load_sizes", "mode": "plain", "functions": ["peg_unmarshal", "size_padded"],
+              "defines": ["-DLOAD_FRAME", "-DVC_OWN_PANIC"], "replace_calls": ["janet_unmarshal_size:h_um_size64", "janet_unmarshal_int:h_um_int64", "janet_unmarshal_ensure:h_um_ensure64", "janet_unmarshal_abstract:h_um_abstract64"],
+              "remove_bodies": "cfun_peg_.*|peg_rule|peg_compile1|spec_.*|peg_marshal", "checks": STD + ["unsigned-overflow-check"], "only": "C10 peg loader|REACH|peg_unmarshal\\.overflow|size_padded\\.overflow", "timeout": 120,
+              "assumes": A_LOAD[:1],
+              "mutants": [M("length-limit-dropped", "    if (bytecode_len > INT32_MAX || num_constants > INT32_MAX) janet_panic(\"invalid peg bytecode\");\n", "", "wrap-around|int32|overflow"),
+                          M("ensure-after-alloc-dropped", "    if (bytecode_len + num_constants > 0) janet_unmarshal_ensure(ctx, bytecode_len + num_constants - 1);\n", "", "input length checked")]})
+
+if os.environ.get("C12WF_ENABLE_ALL"):      # debugging aid: run the disabled (failing-on-the-pinned-tree) units too
+    for u in units:
+        if "disabled_reason" in u:
+            u["was_disabled_reason"] = u.pop("disabled_reason")
 json.dump({"units": units}, open(os.path.join(V, "units", "C12_wf.json"), "w"), indent=1)
 print("wrote %d units" % len(units))
